@@ -1,3 +1,5 @@
+mod alloc;
+mod c16;
 mod case;
 mod driver;
 mod elem;
@@ -9,6 +11,7 @@ mod interp;
 mod known;
 mod oracle;
 mod props;
+mod real;
 mod replay;
 #[cfg(orx_concurrent_iter_verif)]
 mod sched;
@@ -16,6 +19,10 @@ mod sched;
 mod props_sched;
 mod seq;
 mod sources;
+mod twin;
+
+#[global_allocator]
+static GLOBAL: alloc::Counting = alloc::Counting;
 
 fn usage() -> ! {
     eprintln!("usage: vharness check <ID> <quick|thorough> | vharness replay <ID> <file>");
@@ -28,6 +35,10 @@ fn main() {
         std::panic::set_hook(Box::new(|_| {}));
     }
     let args: Vec<String> = std::env::args().collect();
+    if args.len() >= 2 && args[1] == "child" {
+        twin::child_main();
+        return;
+    }
     if args.len() < 4 {
         usage();
     }
